@@ -3,15 +3,21 @@
 
    case:
      RCase fmt nostd chans first init ops     detector driven through its public API
-     ACase fmt nostd chans n frames sq k      signal adaptor: from a counting source, k x next
-                                              (sq = 1: next_squared)
+     ACase fmt nostd chans n frames sq k fin  signal adaptor: from a counting source, k x next
+                                              (sq = 1: next_squared); fin = 0: the source is a closure
+                                              (gen_mut: the frames, then equilibrium, never exhausted);
+                                              fin = 1: signal::from_iter over the finite frame list
+                                              (one frame of look-ahead; exhausted once all are pulled)
    fmt 0 f32, 1 f64 (frame samples = bit patterns), 2 i16, 3 u8 (samples = integer values;
    Float companion f32).  init = the window handed to Rms::new as bit patterns of F::Float
    (Fixed::from_raw_parts(first, init)); nostd = 1 selects the bit-trick square root.
    observations (RCase): per op  [2; out bits..] (reset: [7])  then  [3; square_sum bits..]
      (clone().into_parts()); at the end [5; window in iteration order, flattened]; [4; window_frames];
      a panicking constructor: [8; code].
-   (ACase): per next [2; out bits..]; at the end [4; number of frames pulled from the source].
+     op ZWindow: [5; window in iteration order, flattened] then [3; square_sum bits..].
+   (ACase): per next [2; out bits..]; at the end [4; number of frames pulled from the source];
+     fin = 1: [3; is_exhausted] before the first call and after every call, and the count at the
+     end is the number of items taken from the iterator = min (length frames) (k + 1).
 
    [check_code] = 1*(model and crate disagree) + 2*(property verdict fails on the model run)
                 + 4*(K4 class: some square x*x is not finite). *)
@@ -23,11 +29,11 @@ From Dasp Require Import Dsp.Rms Dsp.Sqrt Dsp.RmsInst Dsp.RmsErr.
 Import ListNotations.
 Open Scope Z_scope.
 
-Inductive zop := ZNext (fr : list Z) | ZNextSq (fr : list Z) | ZCurrent | ZReset.
+Inductive zop := ZNext (fr : list Z) | ZNextSq (fr : list Z) | ZCurrent | ZReset | ZWindow.
 
 Inductive case :=
 | RCase (fmt nostd chans first : Z) (init : list (list Z)) (ops : list zop)
-| ACase (fmt nostd chans n : Z) (frames : list (list Z)) (sq k : Z).
+| ACase (fmt nostd chans n : Z) (frames : list (list Z)) (sq k fin : Z).
 
 Definition B2D {prec emax} (x : binary_float prec emax) : dy :=
   match x with
@@ -57,11 +63,11 @@ Definition conv_op (o : zop) : op K :=
   match o with
   | ZNext fr => ONext (map inconv fr)
   | ZNextSq fr => ONextSq (map inconv fr)
-  | ZCurrent => OCurrent
+  | ZCurrent | ZWindow => OCurrent
   | ZReset => OReset
   end.
 Definition op_code (o : zop) : Z :=
-  match o with ZNext _ => 0 | ZNextSq _ => 1 | ZCurrent => 2 | ZReset => 3 end.
+  match o with ZNext _ => 0 | ZNextSq _ => 1 | ZCurrent => 2 | ZReset => 3 | ZWindow => 4 end.
 Definition op_in (o : zop) : list (T K) :=
   match o with ZNext fr | ZNextSq fr => map inconv fr | _ => [] end.
 
@@ -73,7 +79,8 @@ Fixpoint trace (st : rms K) (ops : list zop) : list (tr K) * rms K * option Z :=
     match step K st (conv_op o) with
     | Ok (st', out) =>
       let '(l, stf, e) := trace st' t in
-      ({| t_op := op_code o; t_in := op_in o; t_out := out; t_sum := square_sum K st' |} :: l, stf, e)
+      let out' := match o with ZWindow => concat (fiter (window K st')) | _ => out end in
+      ({| t_op := op_code o; t_in := op_in o; t_out := out'; t_sum := square_sum K st' |} :: l, stf, e)
     | Panic k => ([], st, Some (Z.of_nat (panic_code k)))
     | UB => ([], st, Some 99)
     end
@@ -81,7 +88,8 @@ Fixpoint trace (st : rms K) (ops : list zop) : list (tr K) * rms K * option Z :=
 
 Definition obs_of_trace (r : list (tr K) * rms K * option Z) : list (list Z) :=
   let '(l, stf, e) := r in
-  flat_map (fun t => [ (if t_op t =? 3 then [7] else 2 :: map tobits (t_out t)); 3 :: map tobits (t_sum t) ]) l
+  flat_map (fun t => [ (if t_op t =? 3 then [7] else (if t_op t =? 4 then 5 else 2) :: map tobits (t_out t));
+                       3 :: map tobits (t_sum t) ]) l
   ++ match e with
      | Some c => [[8; c]]
      | None => [ 5 :: flat_map (map tobits) (fiter (window K stf)); [4; Z.of_nat (window_frames K stf)] ]
@@ -100,21 +108,25 @@ Definition run_rcase (chans first : Z) (init : list (list Z)) (ops : list zop) :
 
 (* adaptor: source = the given frames, then silence (signal::from_iter semantics are not used:
    the harness source is a counting closure that returns the k-th frame, equilibrium afterwards) *)
-Definition run_acase (chans n : Z) (eqz : Z) (frames : list (list Z)) (sq k : Z) : list (list Z) :=
+Definition run_acase (chans n : Z) (eqz : Z) (frames : list (list Z)) (sq k fin : Z) : list (list Z) :=
   let c := Z.to_nat chans in
   let w := {| first := 0; fdata := repeat (equilibrium K c) (Z.to_nat n) |} in
   let s := fun i => map inconv (nth i frames (repeat eqz c)) in
+  let len := Z.of_nat (length frames) in
+  let exh (a : adaptor K) : list (list Z) :=
+    if fin =? 1 then [[3; b2z (len <=? Z.of_nat (pulls K a))]] else [] in
   let fix go (a : adaptor K) (j : nat) : list (list Z) :=
     match j with
-    | O => [[4; Z.of_nat (pulls K a)]]
+    | O => [[4; if fin =? 1 then Z.min len (Z.of_nat (pulls K a) + 1) else Z.of_nat (pulls K a)]]
     | S j' =>
       match (if sq =? 1 then adaptor_next_squared K a else adaptor_next K a) with
-      | Ok (a', out) => (2 :: map tobits out) :: go a' j'
+      | Ok (a', out) => (2 :: map tobits out) :: exh a' ++ go a' j'
       | Panic p => [[8; Z.of_nat (panic_code p)]]
       | UB => [[9]]
       end
     end in
-  go (adaptor_new K s c w) (Z.to_nat k).
+  let a0 := adaptor_new K s c w in
+  exh a0 ++ go a0 (Z.to_nat k).
 
 (* ---- property verdict on the model run (zero-initialised window only) ---- *)
 Definition all_zero_init (init : list (list Z)) : bool :=
@@ -126,7 +138,7 @@ Definition chan_events (c : nat) (l : list (tr K)) : option (list ev) :=
     | None => None
     | Some evs =>
       if t_op t =? 3 then Some (EReset :: evs)
-      else if t_op t =? 2 then Some evs
+      else if (t_op t =? 2) || (t_op t =? 4) then Some evs
       else match nth_error (t_in t) c, nth_error (t_sum t) c with
            | Some x, Some s => if finite x && finite s then Some (EPush (toD x) (toD s) :: evs) else None
            | _, _ => None
@@ -177,9 +189,9 @@ Definition run_case (c : case) : list (list Z) :=
   | RCase fmt nostd chans first init ops =>
     if fmt =? 1 then run_rcase (NumF64sel nostd) F64.bits F64.of_bits F64.of_bits chans first init ops
     else run_rcase (NumF32sel nostd) F32.bits F32.of_bits (inconv32 fmt) chans first init ops
-  | ACase fmt nostd chans n frames sq k =>
-    if fmt =? 1 then run_acase (NumF64sel nostd) F64.bits F64.of_bits chans n (eq_input fmt) frames sq k
-    else run_acase (NumF32sel nostd) F32.bits (inconv32 fmt) chans n (eq_input fmt) frames sq k
+  | ACase fmt nostd chans n frames sq k fin =>
+    if fmt =? 1 then run_acase (NumF64sel nostd) F64.bits F64.of_bits chans n (eq_input fmt) frames sq k fin
+    else run_acase (NumF32sel nostd) F32.bits (inconv32 fmt) chans n (eq_input fmt) frames sq k fin
   end.
 
 Definition check_code (c : case * list (list Z)) : Z :=
@@ -191,7 +203,7 @@ Definition check_code (c : case * list (list Z)) : Z :=
     else
       code_rcase (NumF32sel nostd) F32.bits F32.of_bits (inconv32 fmt) F32.is_finite F32.is_nan B2D 24 128
                  chans first init ops (snd c)
-  | ACase _ _ _ _ _ _ _ => if zll_eqb (run_case (fst c)) (snd c) then 0 else 1
+  | ACase _ _ _ _ _ _ _ _ => if zll_eqb (run_case (fst c)) (snd c) then 0 else 1
   end.
 
 Definition check (c : case * list (list Z)) : bool := check_code c =? 0.
